@@ -396,6 +396,12 @@ func (w *world) check(bc *blockchain.Blockchain, store db.KeyValueReader, c judg
 		classes = append(classes, cl)
 	}
 	sort.Strings(classes)
+	if c.Collapse != "" && len(classes) > 0 {
+		w.violation(c.Collapse, fmt.Sprintf("%s: floor %d, head %d: %d kinds of wrong answers, e.g. [%s] %s", c.Name, F, w.pos-1, len(classes), classes[0], fs.byClass[classes[0]][0]),
+			map[string]any{"context": c, "floor": F, "classes": classes, "examples": fs.byClass[classes[0]]})
+		w.r.Count("checks:"+c.Name, 1)
+		return F
+	}
 	for _, cl := range classes {
 		ex := fs.byClass[cl]
 		extra := map[string]any{"context": c, "floor": F, "examples": ex, "count": fs.counts[cl]}
@@ -955,6 +961,7 @@ func TestC16(t *testing.T) {
 		floor = 3 // the race binary runs an eighth of the cases
 	}
 	r.Cases(n, 0, func(idx int) { runScenario(r, idx) })
+	r.Cases(r.N(24, 200), 0, func(idx int) { runHistMigScenario(r, idx) })
 	r.Assume("the twin (same Juno code, never pruned) is the reference for every answer; its own correctness is C03/C04/C07's subject")
 	r.Assume("the only senders on the pruner's two feeds are the harness; an event counts as handled when both subscription channels are empty and the goroutine running Pruner.Run is parked in Run's select (runtime.Stack) - no sleep length enters a verdict")
 	r.Assume("block timestamps are either 2023 (generator default) or year 2096, minAge is 0 or 24h: no verdict depends on the current clock")
